@@ -126,7 +126,7 @@ PROPERTIES = {
         "assumptions": ["R7 write! translation, R3 chars().enumerate() as an index loop over the materialised characters"],
     },
     "C13": {
-        "units": ["c13_bar", "c13_format_bar", "format_state"],
+        "units": ["c13_bar", "c13_format_bar", "format_state", "c09_estimator"],
         "kani_thorough": [
             {"harness": "c13_format_bar_geometry", "timeout": 2400, "complete": True,
              "obligation": "kani/style::ProgressStyle::format_bar",
@@ -171,7 +171,7 @@ PROPERTIES = {
         "assumptions": ["default cargo features (unicode-width on, unicode-segmentation off)"],
     },
     "C07": {
-        "units": ["c07_position", "pb_glue"],
+        "units": ["c07_position", "pb_glue", "c09_estimator"],
         "kani_thorough": [
             {"harness": "c07_fraction_full_domain", "solver": "kissat", "timeout": 1500, "complete": True,
              "obligation": "kani/state::ProgressState::fraction",
@@ -179,7 +179,7 @@ PROPERTIES = {
              "trusted": ["Kani 0.68 / CBMC 6.11 float model (IEEE-754 binary32 division, round-to-nearest)", "kani harness builds ProgressState with mem::zeroed::<Instant>()"]},
         ],
         "level": "proof",
-        "explanation": "AtomicPosition::{inc,dec,set,reset}, ProgressState getters/setters and BarState::{set_length,inc_length,dec_length,unset_length,tick,reset,finish_using_style} extracted from /repo/src and verified by Verus against wrap-around / saturation equations written from the property text, with frame clauses (nothing else writes position or length). fraction() is float code: decided by a loop-free full-domain Kani harness in the thorough tier.",
+        "explanation": "AtomicPosition::{inc,dec,set,reset}, ProgressState getters/setters and BarState::{set_length,inc_length,dec_length,unset_length,tick,reset,finish_using_style} extracted from /repo/src and verified by Verus against wrap-around / saturation equations written from the property text, with frame clauses (nothing else writes position or length). fraction() is verified over the reals in the c09_estimator unit (in [0,1], 0 for unknown length and at position 0, 1 for length 0 and exactly when position >= length > 0, otherwise the quotient); its f32 side is decided by a loop-free full-domain Kani harness in the thorough tier.",
         "level_text": "Deductive proof (Verus) for every position, length, delta and bar state that each bookkeeping operation computes exactly the documented value (wrapping at 2^64 without panicking for the position, saturating for the length) and touches nothing else; the completed fraction is proved within [0,1] with its corner cases for all 2^64 x (2^64+1) inputs by Kani/CBMC on the unmodified function (thorough tier).",
         "level_note": "Assumed, not decided: concurrent inc/dec from several threads are not lost (atomicity of portable_atomic fetch_add/fetch_sub; schedules are outside contract-based verification) -- only the per-call equations are proved. Arc sharing between ProgressBar.pos and BarState.state.pos is modelled as a plain field. Callees BarState::draw / update_estimate_and_draw enter through their frame contract (see stubbed_callees in the evidence). Quick tier runs the Verus unit only; the Kani fraction harness (several minutes) runs in the thorough tier.",
         "assumptions": ["atomics are sequential cells; concurrent schedules not modelled", "IEEE-754 semantics as implemented by CBMC (thorough tier)"],
